@@ -129,6 +129,13 @@ def harden(stream, rng, rate):
                     'call is repeated with equal fresh arguments: same result required')
 
 
+def b3(ctx, quick, drift, thorough):
+    """budget with an intermediate level for a quick run after source drift (must stay near two minutes in total)"""
+    if ctx.tier != 'quick':
+        return thorough
+    return drift if ctx.drift else quick
+
+
 def rate_for(ctx):
     return 1.0 if (ctx.drift or ctx.tier != 'quick') else 0.3
 
@@ -581,8 +588,8 @@ def stream_norms(ctx, of, lcu, gon):
                          'two': [frs(r) for r in two.tolist()], 'const': to_gq(complex(H.constant))}, jw_ok))
         b.add(case, fr(x), {'op': 'c19.lambda_norm', 'one': [frs(r) for r in one_m.tolist()], 'two': [frs(r) for r in two.tolist()]},
               orc)
-    for _ in range(budget(t, 300, 1500)):
-        n = rng.choice([1, 2, 2, 3, 3, 4, 5, 5, 6, 9, budget(t, 10, 17)])
+    for _ in range(b3(ctx, 300, 800, 1500)):
+        n = rng.choice([1, 2, 2, 3, 3, 4, 5, 5, 6, 9, b3(ctx, 10, 12, 17)])
         vals = rng.choice([VALS, VALS, VALS_INT])
         if rng.random() < 0.25:
             vals = small_vals(vals)
@@ -667,14 +674,14 @@ def stream_norms(ctx, of, lcu, gon):
         hj = [frs(r) for r in h.tolist()]
         gj = [[[frs(r) for r in m] for m in blk] for blk in g.tolist()]
         orc_a, orc_w = [], []
-        if symmetric and (n <= 2 or (n == 3 and n3 < budget(t, 2, 10))):
+        if symmetric and (n <= 2 or (n == 3 and n3 < b3(ctx, 2, 5, 10))):
             n3 += (n == 3)
             terms = enc_ferm(mol_terms(const, h, g))
             orc_a.append(('get_one_norm_int differs from the 1-norm of all Jordan-Wigner coefficients',
                           {'op': 'c19.spec.jw_norm', 'n': 2 * n, 'operator': terms, 'with_id': True}, exact_eq(xa)))
             orc_w.append(('get_one_norm_int_woconst differs from the 1-norm of the non-identity Jordan-Wigner coefficients',
                           {'op': 'c19.spec.jw_norm', 'n': 2 * n, 'operator': terms, 'with_id': False}, exact_eq(xw)))
-        if n <= 2 or (n == 3 and n3 <= budget(t, 2, 10)):
+        if n <= 2 or (n == 3 and n3 <= b3(ctx, 2, 5, 10)):
             # one_norm_identity_coefficient (no symmetry needed): get_one_norm_int - get_one_norm_int_woconst is the modulus
             # of the identity coefficient Tr(H) / 4^n of the Spec operator molOp; molOp itself is compared with the
             # operator built here (mol_terms) as a set of terms
@@ -712,8 +719,8 @@ def stream_norms(ctx, of, lcu, gon):
                           'Jordan-Wigner image of the spin-orbital Hamiltonian (one_norm_spec_partial)',
                           {'op': 'c19.spec.mol_coulomb', 'const': fr(const), 'h': hj, 'g': gj}, coul_ok))
         b.add(dict(case, fn='get_one_norm_int_woconst'), fr(xw), {'op': 'c19.one_norm', 'h': hj, 'g': gj, 'woconst': True}, orc_w)
-    for _ in range(budget(t, 200, 1000)):
-        n = rng.choice([1, 2, 2, 2, 3, 3, budget(t, 4, 5)])
+    for _ in range(b3(ctx, 200, 500, 1000)):
+        n = rng.choice([1, 2, 2, 2, 3, 3, b3(ctx, 4, 4, 5)])
         # integer-valued integrals are also given as numpy integer arrays (the accumulators of the code must not
         # inherit the integer dtype: 1/2 * g would be truncated), dyadic ones as float64 / float32
         # complex128: complex-typed arrays holding real integrals
@@ -1140,14 +1147,17 @@ def run(ctx):
     thc = importlib.import_module('openfermion.resource_estimates.thc.compute_cost_thc')
     sp = importlib.import_module('openfermion.resource_estimates.sparse.costing_sparse')
     pc = importlib.import_module('openfermion.resource_estimates.surface_code_compilation.physical_costing')
-    return [
-        stream_roulette(ctx, lcu),
-        stream_lcu(ctx, lcu),
-        stream_norms(ctx, of, lcu, gon),
-        stream_qrom(ctx, ut),
-        stream_costs(ctx, thc.compute_cost, sp.cost_sparse),
-        stream_physical(ctx, pc),
-    ]
+    import os
+    import time
+    streams = []
+    for fn, args in ((stream_roulette, (ctx, lcu)), (stream_lcu, (ctx, lcu)), (stream_norms, (ctx, of, lcu, gon)),
+                     (stream_qrom, (ctx, ut)), (stream_costs, (ctx, thc.compute_cost, sp.cost_sparse)),
+                     (stream_physical, (ctx, pc))):
+        t0 = time.time()
+        streams.append(fn(*args))
+        if os.environ.get('OFV_TIMING'):
+            print('timing %s %.1fs' % (fn.__name__, time.time() - t0), flush=True)
+    return streams
 
 
 def replay(ctx, payload):
